@@ -6,7 +6,8 @@
    tie to the source is the correspondence check harness/c02.py. *)
 From Coq Require Import List NArith ZArith Arith Bool Lia.
 From AHK Require Import Lib.Res Lib.ByteStr Model.Sha512 Model.Srp Model.SrpServer Model.SrpBig
-  Proofs.Sha512 Proofs.SrpBytes Proofs.Srp Proofs.SrpServer Proofs.SrpBig Proofs.SrpTop.
+  Proofs.Sha512 Proofs.SrpBytes Proofs.Srp Proofs.SrpServer Proofs.SrpBig Proofs.SrpTop
+  Model.SrpSession Model.SrpSessionBig Proofs.SrpSession.
 Import ListNotations.
 Local Open Scope Z_scope.
 
@@ -278,3 +279,92 @@ Print Assumptions srpserver_guarded_iff_spec.
 Print Assumptions srpserver_zero_key_refuted.
 Print Assumptions srp_client_srpserver_agree.
 Print Assumptions srp_big_refines_srpserver.
+
+(* ==== round 8: SrpClient as an object with history, several objects alive in one process
+   (Model/SrpSession.v).  One controller process pairs several accessories: every pair-setup in flight
+   holds its own SrpClient between M3 and M4, and the calls of different exchanges interleave.  [hap_run]
+   executes a schedule of (object, public method call) pairs on the class as written, including the
+   per-instance session-key memo. *)
+
+(* isolation: in ANY schedule over ANY store, the observations of object i are those of its own calls
+   run alone - no call on another object (another exchange, a failing call, a re-keyed object) can
+   change them.  This is the statement a class-level or module-level memo breaks. *)
+Theorem srp_session_isolation : forall sched st i,
+    proj i (hap_run powm st sched) = hap_run1 powm (st i) (proj i sched).
+Proof. exact hap_isolation. Qed.
+
+(* exchanges in flight at the same time: an object used in protocol order (constructor, set_salt,
+   set_server_public_key, then any getters, any number of times, in any order) returns the values of
+   ITS exchange as computed by the pure [client] of Model/Srp.v, whatever else the schedule contains *)
+Theorem srp_concurrent_exchanges : forall sched st i I P a salt B_b r gs,
+    proj i sched = ENew I P a :: ESalt salt :: EB B_b :: gs ->
+    forallb is_getter gs = true ->
+    hap_client powm I P a salt B_b = Ok r ->
+    proj i (hap_run powm st sched) = ODone :: ODone :: ODone :: map (expected r) gs.
+Proof. exact hap_concurrent. Qed.
+
+(* the same for any hash, pow, group and constants *)
+Theorem srp_concurrent_exchanges_any_hash :
+  forall (H : bytes -> bytes) (PM : Z -> Z -> Z -> Z) (Nm g kc : Z) (hgroup : bytes) (L SL : nat)
+         sched (st : store) i I P a salt B_b r gs,
+    proj i sched = ENew I P a :: ESalt salt :: EB B_b :: gs ->
+    forallb is_getter gs = true ->
+    client H PM Nm g kc hgroup L SL I P a salt B_b = Ok r ->
+    proj i (run H PM Nm g kc hgroup L SL st sched) = ODone :: ODone :: ODone :: map (expected r) gs.
+Proof. exact concurrent. Qed.
+
+(* ... and those values are the ones of the exchange's own accessory: for every user name, setup code,
+   16-byte salt and ephemerals, with any number of other exchanges interleaved, the getters of the
+   object return A_b = PAD(g^a), the accessory's K and the M1 it accepts, and
+   verify_servers_proof_bytes accepts the accessory's M2 *)
+Theorem srp_concurrent_exchange_accepted : forall sched st i I P salt a b gs,
+    0 <= a -> 0 <= b -> length salt = 16%nat -> all_bytes salt = true ->
+    let B_b := sv_public sha512 N3072 G3072 HK_KEY_LENGTH I P salt b in
+    proj i sched = ENew I P a :: ESalt salt :: EB B_b :: gs ->
+    forallb is_getter gs = true ->
+    exists r, hap_client powm I P a salt B_b = Ok r /\
+      proj i (hap_run powm st sched) = ODone :: ODone :: ODone :: map (expected r) gs /\
+      let s := hap_server I P salt b (r_A_b r) (r_M1 r) in
+      r_A_b r = PAD HK_KEY_LENGTH (G3072 ^ a mod N3072) /\
+      r_K r = s_K s /\ r_M1 r = s_M1 s /\ s_ok s = true /\ cl_accepts r (s_M2 s) = true.
+Proof. exact hap_concurrent_accessory. Qed.
+
+(* OBSERVATION about the class as written (outside C02's statement: the controller creates one SrpClient
+   per pair-setup and never re-keys it): Srp._session_key is never invalidated, so an object whose
+   session key was computed keeps answering that key after set_salt / set_server_public_key with the
+   values of another exchange (toy witness: c02_reuse_witness; seeded change C02-P made the controller
+   reuse a client and was caught because of exactly this) *)
+Theorem srpclient_reuse_stale_key_observation : forall o K salt B_b,
+    o_K o = Some K ->
+    let s1 := fst (hap_ostep powm (Some o) (ESalt salt)) in
+    let s2 := fst (hap_ostep powm s1 (EB B_b)) in
+    snd (hap_ostep powm s2 EGetK) = OBytes K.
+Proof. exact hap_reuse_keeps_key. Qed.
+
+(* refinement of the evaluator for schedules (Uint63 axioms, as srp_big_refines_client) *)
+Theorem srp_big_refines_session : forall sched st,
+    hap_run powm_fast st sched = hap_run powm st sched.
+Proof. exact hap_run_fast. Qed.
+
+(* non-vacuity: two toy exchanges interleaved call by call (object 0 in protocol order, its getters
+   return the values of its own [client] result; a call on a name never bound raises) *)
+Example c02_nonvacuous_concurrent :
+  trun empty_store toy_sched = toy_sched_obs /\
+  (exists r, tclient tI tP 77 ts1 tB1 = Ok r /\ r_K r = (116 :: nil)%N /\ r_M1 r = (91 :: nil)%N /\ r_M2 r = (175 :: nil)%N) /\
+  (exists r, tclient tI tP2 101 ts2 tB2 = Ok r /\ r_K r = (36 :: nil)%N /\ r_M1 r = (187 :: nil)%N /\ r_M2 r = (150 :: nil)%N) /\
+  proj 0 toy_sched = [ENew tI tP 77; ESalt ts1; EB tB1; EGetM1; EVerify (175 :: nil)%N; EGetK; EGetA].
+Proof. exact toy_concurrent_ok. Qed.
+
+(* witness for the observation: half-initialised calls raise, an over-long salt raises, and the re-keyed
+   object answers the old session key (116) where a new client computes 146 *)
+Example c02_reuse_witness :
+  trun1 None toy_reuse_calls = toy_reuse_obs /\
+  exists r, tclient tI tP 77 ts2 tB2 = Ok r /\ r_K r = (146 :: nil)%N /\ r_M1 r = (87 :: nil)%N.
+Proof. exact toy_reuse_ok. Qed.
+
+Print Assumptions srp_session_isolation.
+Print Assumptions srp_concurrent_exchanges.
+Print Assumptions srp_concurrent_exchanges_any_hash.
+Print Assumptions srp_concurrent_exchange_accepted.
+Print Assumptions srpclient_reuse_stale_key_observation.
+Print Assumptions srp_big_refines_session.
